@@ -35,6 +35,9 @@ import (
 //	inflight3 <K> <L> | ok o1=<codes> o2=<codes> o3=<codes> o4=<codes> d1=<0|1> d2=<0|1>
 //	     version-1 receiver, real sender: O1 = [K] accepted, the sender opens the uTP stream and stalls; O2 = [K, L] arrives and
 //	     its transfer completes; O3 = [K] while the first transfer is still running; then the first transfer completes; O4 = [K]
+//	inflight2 <va> <vb> <K> | ok o1=<A|P|D> o2=<A|P|D> d1=<0|1>
+//	     two different senders negotiating version va and vb: the first one's OFFER [K] is accepted, it opens the uTP stream and
+//	     stalls; the second one offers the same K before delivery (A accepted, P inbound transfer in progress, D declined)
 //	race <n> | ok second=<codes>        two back-to-back version-1 offers of the same fresh keys, codes of the second reply
 func init() { registry["C09"] = runC09 }
 
@@ -721,6 +724,90 @@ func c09inflight3(c *Ctx, K, L []byte) {
 	c.Emit("%s | ok o1=%s o2=%s o3=%s o4=%s d1=%d d2=%d", head, hx(o1), hx(o2), hx(o3), hx(o4), d1, d2)
 }
 
+// c09verdict1: verdict for the single offered key of an ACCEPT body in the encoding of version ver.
+func c09verdict1(ver int, body []byte) string {
+	if len(body) == 0 {
+		return "?"
+	}
+	if ver == 0 {
+		if body[0]&1 == 1 {
+			return "A"
+		}
+		return "D"
+	}
+	switch body[0] {
+	case byte(portalwire.Accepted):
+		return "A"
+	case byte(portalwire.InboundTransferInProgress):
+		return "P"
+	}
+	return "D"
+}
+
+// c09inflight2: the key a running transfer is bringing in is offered again by ANOTHER peer, all four version pairings.
+func c09inflight2(c *Ctx, va, vb int, K []byte) {
+	R := c09nodeFor(c, []byte{0, 1}, 50, 8, [][]byte{K}, "1")
+	defer R.n.Stop()
+	A := c09newNode(c, []byte{byte(va)}, 50, 8, 255)
+	defer A.n.Stop()
+	B := c09newNode(c, []byte{byte(vb)}, 50, 8, 255)
+	defer B.n.Stop()
+	head := fmt.Sprintf("inflight2 %d %d %s", va, vb, hx(K))
+	c.Count(fmt.Sprintf("inflight2_%d_%d", va, vb))
+	if A.n.Ping(R.n.Self()) != nil || B.n.Ping(R.n.Self()) != nil {
+		c.Emit("%s | err 9", head)
+		return
+	}
+	ctx, cancel := context.WithTimeout(context.Background(), 20*time.Second)
+	defer cancel()
+	payload := portalwire.VerifEncodeContents([][]byte{{7, 7, 7}})
+	b1, id1, ok1 := c09talkOffer(A, R, [][]byte{K})
+	if !ok1 {
+		c.Emit("%s | err 1", head)
+		return
+	}
+	o1 := c09verdict1(va, b1)
+	var conn1 interface {
+		Write(context.Context, []byte) (int, error)
+		Close()
+	}
+	if o1 == "A" && id1 != 0 {
+		cn, err := A.n.P.Utp.DialWithCid(ctx, R.n.Self(), id1)
+		if err != nil {
+			c.Emit("%s | err 2", head)
+			return
+		}
+		conn1 = cn
+		time.Sleep(300 * time.Millisecond) // the receive goroutine sits in ReadToEOF, K is marked
+	}
+	b2, id2, ok2 := c09talkOffer(B, R, [][]byte{K})
+	o2 := "?"
+	if ok2 {
+		o2 = c09verdict1(vb, b2)
+	}
+	d1 := 0
+	if conn1 != nil {
+		conn1.Write(ctx, payload)
+		conn1.Close()
+		select {
+		case <-R.q:
+			d1 = 1
+		case <-time.After(8 * time.Second):
+		}
+	}
+	if o2 == "A" && id2 != 0 { // let the second transfer finish too
+		if cn, err := B.n.P.Utp.DialWithCid(ctx, R.n.Self(), id2); err == nil {
+			cn.Write(ctx, payload)
+			cn.Close()
+			select {
+			case <-R.q:
+			case <-time.After(8 * time.Second):
+			}
+		}
+	}
+	c.Emit("%s | ok o1=%s o2=%s d1=%d", head, o1, o2, d1)
+}
+
 // c09race: two version-1 offers of the same fresh in-range keys, back to back from one goroutine.
 func c09race(c *Ctx, key *ecdsa.PrivateKey, n int) {
 	R := c09newNode(c, []byte{0, 1}, 50, 8, 255)
@@ -784,6 +871,8 @@ func c09replay(c *Ctx, lines []string) {
 			c09e2e(c, key, unhx(f[1]), unhx(f[2]), f[3], len(unhxl(f[5])), f[4], false, &c09given{unhxl(f[5]), f[6], unhxl(f[7])})
 		case "inflight3":
 			c09inflight3(c, unhx(f[1]), unhx(f[2]))
+		case "inflight2":
+			c09inflight2(c, atoi(f[1]), atoi(f[2]), unhx(f[3]))
 		case "race":
 			c09race(c, key, atoi(f[1]))
 		}
@@ -1012,6 +1101,9 @@ func runC09(c *Ctx) {
 	}
 	for i := 0; i < 6; i++ {
 		c09race(c, key, 1+rg.Intn(3))
+	}
+	for _, vv := range [][2]int{{0, 1}, {0, 0}, {1, 0}, {1, 1}} {
+		c09inflight2(c, vv[0], vv[1], append([]byte{0x63}, rg.Bytes(7)...))
 	}
 	nin := 2
 	if c.Tier == "thorough" {
